@@ -24,6 +24,7 @@ import (
 	"strconv"
 	"strings"
 	"time"
+	"unicode/utf8"
 
 	"connectrpc.com/connect"
 	"google.golang.org/protobuf/proto"
@@ -136,6 +137,13 @@ func (r restClientProtocol) encodeEnd(op *operation, end *responseEnd, writer io
 		return nil
 	}
 	stat := grpcStatusFromError(cerr)
+	if !utf8.ValidString(stat.GetMessage()) {
+		// A backend may relay bytes that are not UTF-8 (e.g. percent-encoded
+		// in Grpc-Message). They have no JSON form; without this the marshal
+		// below fails and the body would name another code than the HTTP
+		// status already sent.
+		stat.Message = strings.ToValidUTF8(stat.GetMessage(), "\uFFFD")
+	}
 	bin, err := op.client.codec.MarshalAppend(nil, stat)
 	if err != nil && len(stat.GetDetails()) > 0 {
 		// Details of a type that cannot be resolved have no JSON form.
